@@ -208,3 +208,16 @@ Proof.
     rewrite E, andb_false_r, Hfs in Hfin. cbn in Hfin. injection Hfin as <-. rewrite Hw. cbn [ep_writes].
     exists st'. split; apply in_or_app; right; [left | right; left]; reflexivity.
 Qed.
+
+(** the replica set of spec.template - during an unfinished rollback: the failed canary, the only durable record of the
+    failure - is never deleted by the reconcile, however long ago it failed and whatever it reports *)
+Theorem uptodate_never_deleted : forall sn pl e u,
+  eds_sync sn = Ok pl -> es_obj sn = Some e ->
+  last_such (rs_up_to_date e) (rs_of_eds e (es_rss sn)) = Some u ->
+  ~ In (r_name u) (deletes_of (ep_writes pl)).
+Proof.
+  intros sn pl e u H He Hu Hin.
+  destruct (cleanup_safe sn pl (r_name u) H Hin) as [e' [u' [cur [r [He' Hrest]]]]].
+  rewrite He in He'. inversion He'; subst e'. cbv zeta in Hrest.
+  destruct Hrest as [Hu' [_ [_ [_ [_ [Hne _]]]]]]. rewrite Hu in Hu'. inversion Hu'; subst u'. apply Hne. reflexivity.
+Qed.
